@@ -637,6 +637,279 @@ func IterHeader(r *hx.Rand, comp string) string {
 	return h
 }
 
+// ---------------------------------------------------------------- second round: every small size, every pair of bounds
+
+// LFGrid: every pair (min, max) with min < max from a small grid inside the defaults, among them min > max/2 (a shrink
+// leaves the table above the maximum: it grows again while it is being re-filled).
+func LFGrid(comp string) [][2]string {
+	mins := []string{"1/8", "3/16", "1/4", "5/16", "3/8", "7/16"}
+	maxs := []string{"1/4", "5/16", "3/8", "7/16", "1/2"}
+	if comp == "chain" {
+		mins = []string{"2", "3", "4", "5", "6", "8"}
+		maxs = []string{"3", "4", "5", "6", "8", "10"}
+	}
+	var out [][2]string
+	for _, a := range mins {
+		for _, b := range maxs {
+			if parseLF(a) < parseLF(b) {
+				out = append(out, [2]string{a, b})
+			}
+		}
+	}
+	return out
+}
+
+// GenGrowShrink: grow to n entries, look everything up, shrink in a few steps with look-ups (and probe counts) after
+// each step - BEFORE the table grows again -, grow again, empty.
+func GenGrowShrink(r *hx.Rand, n int, probes bool) []string {
+	var ops []string
+	add := func(format string, a ...any) { ops = append(ops, fmt.Sprintf(format, a...)) }
+	add("putn 0 %d 1 0", n)
+	add("getn -1 %d 1", n+2)
+	lo := 0
+	for lo < n {
+		d := min(n-lo, max(1, (n-lo)/r.Range(2, 4)))
+		add("deln %d %d 1", lo, d)
+		lo += d
+		add("getn %d %d 1", max(0, lo-3), min(n-lo+6, 70))
+		if probes {
+			add("probesn %d %d 1", max(0, lo-3), min(n-lo+6, 70))
+		}
+		if r.Chance(1, 3) {
+			add("size")
+		}
+	}
+	add("isempty")
+	add("putn 0 %d 1 5", n/2+1)
+	add("getn 0 %d 1", n/2+3)
+	add("deln 0 %d 2", n/4+1)
+	add("getn 0 %d 1", n/2+3)
+	add("all")
+	return ops
+}
+
+// GenStaircase: every entry count from 0 to n and back: one key at a time, all keys looked up after every step.
+func GenStaircase(r *hx.Rand, n int, probes bool) []string {
+	var ops []string
+	add := func(format string, a ...any) { ops = append(ops, fmt.Sprintf(format, a...)) }
+	look := "getn"
+	if probes {
+		look = "probesn"
+	}
+	for i := 0; i < n; i++ {
+		add("put %d %d", i, i+1)
+		add("getn 0 %d 1", i+2)
+		if probes {
+			add("probesn 0 %d 1", i+2)
+		}
+	}
+	add("size")
+	down := r.Bool()
+	for i := 0; i < n; i++ {
+		k := i
+		if down {
+			k = n - 1 - i
+		}
+		add("delete %d", k)
+		add("%s 0 %d 1", look, n)
+	}
+	add("isempty")
+	return ops
+}
+
+// ---------------------------------------------------------------- second round: type instantiation
+
+// TypeHeader: the integers of the protocol represented by other Go types; lib = hashed by the library's own function.
+func TypeHeader(r *hx.Rand, comp, ktype, vtype string, lib bool) string {
+	hname := hx.Pick(r, []string{"id", "const", "mod3", "fnv", "neg"})
+	if lib {
+		hname = map[string]string{"slice": "libslice", "struct": "libstruct", "string": "libstr", "pointer": "fnv"}[ktype]
+	}
+	h := fmt.Sprintf("comp=%s hash=%s cap=%d shuffle=%d", comp, hname, hx.Pick(r, capsFor(comp)), 1+r.Intn(999))
+	mn, mx := lfFor(r, comp)
+	h += lfWords(mn, mx)
+	if ktype != "" {
+		h += " ktype=" + ktype
+	}
+	if vtype != "" {
+		h += " vtype=" + vtype
+	}
+	if r.Bool() { // a second table of the same key type with another hash function and value equality
+		h += " " + tWord(1, comp, hx.Pick(r, []string{hname, "const", "id"}), hx.Pick(r, capsFor(comp)), "", "", hx.Pick(r, []string{"eq", "mod8"}))
+	}
+	return h
+}
+
+// ---------------------------------------------------------------- second round: walks through the capacity graph
+
+func nextPrime(x int) int {
+	for ; ; x++ {
+		if x >= 2 && validCap("quadratic", max(x, 31)) && x >= 31 {
+			return x
+		}
+		if x < 31 {
+			ok := x >= 2
+			for d := 2; d*d <= x; d++ {
+				if x%d == 0 {
+					ok = false
+				}
+			}
+			if ok {
+				return x
+			}
+		}
+	}
+}
+
+// capWalk plans operations (fresh keys at the top, the oldest deleted) that drive a quadratic / double table with
+// default load factors along a path of the capacity graph m -> nextPrime(2m) (grow) | nextPrime(m/2) (shrink).
+type capWalk struct {
+	m, n, u int
+	lo, hi  int
+	ops     []string
+}
+
+func (w *capWalk) grow() {
+	k := 0
+	for grew := false; !grew; {
+		if (w.u+1)*2 > w.m {
+			if 2*w.n >= w.u {
+				w.m, w.u, grew = nextPrime(2*w.m), w.n, true
+			} else {
+				w.u = w.n // re-hash into the same size
+			}
+		}
+		w.n++
+		w.u++
+		k++
+	}
+	w.ops = append(w.ops, fmt.Sprintf("putn %d %d 1 0", w.hi, k))
+	w.hi += k
+}
+
+func (w *capWalk) shrink() bool {
+	if w.m/2 < 31 {
+		return false
+	}
+	k := 0
+	for w.n > 0 {
+		w.n--
+		k++
+		if 8*w.n <= w.m {
+			w.m, w.u = nextPrime(w.m/2), w.n
+			w.ops = append(w.ops, fmt.Sprintf("deln %d %d 1", w.lo, k))
+			w.lo += k
+			return true
+		}
+	}
+	return false
+}
+
+// fill: fresh keys up to the load limit of the current capacity (without growing), then look-ups of absent keys
+func (w *capWalk) fill() {
+	k := 0
+	for (w.u+2)*2 <= w.m {
+		w.n++
+		w.u++
+		k++
+	}
+	if k > 0 {
+		w.ops = append(w.ops, fmt.Sprintf("putn %d %d 1 3", w.hi, k))
+		w.hi += k
+	}
+	w.ops = append(w.ops, fmt.Sprintf("get %d", w.hi+77), fmt.Sprintf("probesn %d 3 1", w.hi+77), "size")
+}
+
+// SquareWalk is a path of the capacity graph from `start` whose last resize asks for a capacity just below the square
+// of a prime with no prime in between (a primality test that accepts the square lands on it).
+type SquareWalk struct {
+	Start, Square, MaxCap int
+	Path                  string // e.g. "><<" : grow, shrink, shrink
+}
+
+// SquareWalks searches the capacity graph (breadth first, capacities up to limit) from every start.
+func SquareWalks(starts []int, limit, maxLen int) []SquareWalk {
+	squares := map[int]bool{}
+	for p := 11; p <= 101; p++ {
+		if validCap("quadratic", max(p, 31)) || p == 11 || p == 13 || p == 17 || p == 19 || p == 23 || p == 29 {
+			isP := true
+			for d := 2; d*d <= p; d++ {
+				if p%d == 0 {
+					isP = false
+				}
+			}
+			if isP {
+				squares[p*p] = true
+			}
+		}
+	}
+	crosses := func(req int) int { // the square in [req, nextPrime(req)), if any
+		np := nextPrime(req)
+		for s := req; s < np; s++ {
+			if squares[s] {
+				return s
+			}
+		}
+		return 0
+	}
+	var out []SquareWalk
+	for _, st := range starts {
+		type node struct {
+			m      int
+			path   string
+			maxCap int
+		}
+		seen := map[int]bool{st: true}
+		found := map[int]bool{}
+		queue := []node{{st, "", st}}
+		for len(queue) > 0 {
+			nd := queue[0]
+			queue = queue[1:]
+			if len(nd.path) >= maxLen {
+				continue
+			}
+			for _, dir := range []byte{'>', '<'} {
+				req := 2 * nd.m
+				if dir == '<' {
+					req = nd.m / 2
+					if req < 31 {
+						continue
+					}
+				}
+				if req > limit {
+					continue
+				}
+				if s := crosses(req); s > 0 && !found[s] {
+					found[s] = true
+					out = append(out, SquareWalk{Start: st, Square: s, MaxCap: max(nd.maxCap, nextPrime(req)), Path: nd.path + string(dir)})
+				}
+				nm := nextPrime(req)
+				if !seen[nm] {
+					seen[nm] = true
+					queue = append(queue, node{nm, nd.path + string(dir), max(nd.maxCap, nm)})
+				}
+			}
+		}
+	}
+	return out
+}
+
+// Ops of a square walk: follow the path, then fill the table to its load limit and look up absent keys.
+func (sw SquareWalk) Ops() []string {
+	w := &capWalk{m: sw.Start}
+	for _, d := range []byte(sw.Path) {
+		if d == '>' {
+			w.grow()
+		} else if !w.shrink() {
+			break
+		}
+	}
+	w.fill()
+	w.grow()
+	w.fill()
+	return w.ops
+}
+
 // ---------------------------------------------------------------- the families, for C02 and C03
 
 // capCandidates: the capacities of the InitialCap sweep for comp: every valid one up to `dense`, above that the valid
@@ -853,8 +1126,114 @@ func MainHarden(run *hx.Run, lim *Limiter, exec hx.Exec, probes bool) bool {
 				return true
 			}
 		}
+		// ---- second round: the type parameters instantiated with []int / struct / string / pointer keys (hashed by the
+		// library's own hash functions, or by a user function) and with []int values (not comparable, with an eqVal)
+		for _, kt := range []string{"slice", "struct", "string", "pointer", ""} {
+			for j := 0; j < thin(4); j++ {
+				vt := ""
+				if j%2 == 1 || kt == "" {
+					vt = "slice"
+				}
+				hdr := TypeHeader(r, comp, kt, vt, j < 2 && kt != "")
+				ops := genMixed(r, r.Range(40, 160), r.Range(4, 40))
+				switch j {
+				case 2:
+					ops = GenIter(r, r.Range(1, 30), r.Range(0, 20))
+				case 3:
+					ops = GenGrowShrink(r, r.Range(20, 150), probes)
+				}
+				if do(hx.Case{Header: hdr, Ops: ops}) {
+					return true
+				}
+			}
+		}
+		// ---- second round: EVERY pair of load-factor bounds of a grid (min > max/2 included) x a grow-then-shrink walk
+		// with look-ups before the table grows again, under a well-spread, a three-valued and a constant hash
+		for gi, lf := range LFGrid(comp) {
+			for hi, hname := range []string{"fnv", "mod3", "const"} {
+				if probes && hname == "fnv" && !thorough {
+					continue
+				}
+				n := r.Range(30, 200)
+				if hname == "const" || (comp == "linear" && hname == "mod3") {
+					n = r.Range(30, 110)
+				}
+				if comp == "linear" && hname == "const" {
+					n = r.Range(20, 60)
+				}
+				if comp == "chain" {
+					n = r.Range(30, 400) // the chain table shrinks at 2 entries per bucket: more entries, more resizes
+				}
+				hdr := fmt.Sprintf("comp=%s hash=%s cap=%d shuffle=%d minlf=%s maxlf=%s", comp, hname,
+					[]int{0, 0, hx.Pick(r, capsFor(comp))}[(gi+hi)%3], 1+r.Intn(999), lf[0], lf[1])
+				if do(hx.Case{Header: hdr, Ops: GenGrowShrink(r, n, probes)}) {
+					return true
+				}
+			}
+		}
+		// ---- second round: every entry count from 0 to 200 and back, one key at a time, everything looked up at every step
+		for k, hname := range []string{"fnv", "mod3", "id"} {
+			n := 200
+			if comp == "linear" && hname == "mod3" {
+				n = 120
+			}
+			hdr := fmt.Sprintf("comp=%s hash=%s cap=0 shuffle=%d", comp, hname, 1+r.Intn(999))
+			if k == 1 {
+				lf := hx.Pick(r, LFGrid(comp))
+				hdr += " minlf=" + lf[0] + " maxlf=" + lf[1]
+			}
+			if do(hx.Case{Header: hdr, Ops: GenStaircase(r, n, probes)}) {
+				return true
+			}
+		}
+		// ---- second round: walks through the capacity graph m -> nextPrime(2m) | nextPrime(m/2) whose last resize asks for a
+		// capacity just below the square of a prime (11^2 .. 101^2) with no prime in between, every key colliding, then
+		// the table filled to its load limit and absent keys looked up. Quick tier: the walks that stay below 1200
+		// slots; Huge: one walk per square (the cheapest over several starting capacities) and every walk from the
+		// default capacity (the 19-resize rhythm to 3481 = 59^2 among them), judged by the oracle only above 2000 slots.
+		if oa {
+			starts := []int{31, 61, 131, 263}
+			limit, maxLen := 1200, 10
+			if run.Huge() {
+				starts, limit, maxLen = []int{31, 37, 61, 131, 263, 839, 3343}, 21000, 22
+			}
+			best := map[int]SquareWalk{}
+			var walks []SquareWalk
+			for _, sw := range SquareWalks(starts, limit, maxLen) {
+				if sw.Start == 31 && run.Huge() {
+					walks = append(walks, sw)
+					continue
+				}
+				if b, ok := best[sw.Square]; !ok || sw.MaxCap < b.MaxCap {
+					best[sw.Square] = sw
+				}
+			}
+			for _, sw := range best {
+				walks = append(walks, sw)
+			}
+			sort.Slice(walks, func(i, j int) bool {
+				if walks[i].Square != walks[j].Square {
+					return walks[i].Square < walks[j].Square
+				}
+				return walks[i].Start < walks[j].Start
+			})
+			for _, sw := range walks {
+				hdr := fmt.Sprintf("comp=%s hash=%s cap=%d shuffle=%d", comp, hx.Pick(r, []string{"const", "zero", "max"}), sw.Start, 1+r.Intn(999))
+				if do(hx.Case{Header: hdr, Ops: sw.Ops(), NoModel: sw.MaxCap > 2000}) {
+					return true
+				}
+			}
+		}
+		// ---- second round, Huge only: a table of 10^6 entries (oracle only)
+		if run.Huge() {
+			ops := []string{"putn 0 1000000 1 0", "size", "getn 999000 2000 1", "getn -5 10 1", "probesn 0 1000 997", "put 1000000 1", "get 1000000",
+				"deln 0 999990 1", "size", "getn 999980 30 1", "putn 2000000 50 1 1", "size", "deleteall", "isempty", "put 1 1", "get 1"}
+			if do(hx.Case{Header: fmt.Sprintf("comp=%s hash=fnv cap=0 shuffle=%d", comp, 1+r.Intn(999)), Ops: ops, NoModel: true}) {
+				return true
+			}
+		}
 		// ---- InitialCap: every capacity up to `dense`, valid or not; beyond that see capCandidates
-		dense, sample := 130, 10
+		dense, sample := 200, 10
 		if probes {
 			dense, sample = 40, 4
 		}
